@@ -211,7 +211,6 @@ func TestC03InvalidNamedFiles(t *testing.T) {
 	})
 }
 
-
 // TestC03MissingBase: with the base directory missing (never created, not mounted, moved away under a running agent) no
 // operation - with a valid or an invalid name - creates anything anywhere.
 func TestC03MissingBase(t *testing.T) {
